@@ -2,6 +2,7 @@
 //! pdatastructs code (path dependency on /repo, built with --cfg pdatastructs_verif).
 mod common;
 mod ctor;
+mod ext;
 mod bl;
 mod ck;
 mod cms;
@@ -117,6 +118,7 @@ fn main() {
         ("drive", "tdr") => td::drive_real(&args),
         ("rank", "td") => td::rank(&args),
         ("ctor", _) => ctor::run(&args),
+        ("ext", _) => ext::run(&args),
         ("sizing", _) => sizing::run(&args),
         ("mem", _) => mem::run(&args),
         ("replay", "ck") => replay::<ck::CkSut>(&args),
